@@ -16,6 +16,10 @@ rm -f "$loc"
 if ! git apply "$d/patch.diff"; then echo "RESULT $d: PATCH-DOES-NOT-APPLY"; cd /; git -C /repo worktree remove --force "$R"; exit 1; fi
 suite=PASS
 go test -vet=off -count=1 ./... >/tmp/mutchk-$tag.suite 2>&1 || suite=FAIL
+# sub-modules touched by the patch: per-test comparison (gcsfs's TestMain always exits 0)
+if grep -q "^+++ b/\(gcsfs\|sftpfs\)/" "$d/patch.diff"; then
+  python3 /verif/tools/baseline.py "$R" >/tmp/mutchk-$tag.base 2>&1 || suite=FAIL
+fi
 cp "$d/demo_test.go" "$loc"
 if (eval "$cmd") >/tmp/mutchk-$tag.mut 2>&1; then mut=PASS; else mut=FAIL; fi
 echo "RESULT $d: demo-on-original=$orig suite-with-mutant=$suite demo-with-mutant=$mut"
